@@ -92,6 +92,8 @@ def run_one(p):
     saved_modules = dict(sys.modules)
     saved_path = list(sys.path)
     saved_builtins = dict(builtins.__dict__)
+    import math
+    saved_math = dict(math.__dict__)
     state = {"root": None}
     def libdir(name):
         return os.path.join(state["root"] or ".", name)
@@ -155,6 +157,11 @@ def run_one(p):
             if k not in saved_builtins:
                 del builtins.__dict__[k]
         builtins.__dict__.update(saved_builtins)
+        # programs mutate the attributes of the built-in module math
+        for k in list(math.__dict__):
+            if k not in saved_math:
+                del math.__dict__[k]
+        math.__dict__.update(saved_math)
         if root:
             shutil.rmtree(root, ignore_errors=True)
     res = {"id": p["id"], "trace": rec.trace, "exc": exc}
